@@ -41,8 +41,25 @@ def _structs(tier):
     return list(families.lattice_gas((2, 2, 2), max_atoms=5))
 
 
+def light_structures():
+    """Structures with many more atoms than their largest atomic number (custom arrays cannot be mistaken for per-element tables unnoticed)."""
+    from ase.build import bulk, molecule
+
+    lih = bulk("LiH", "rocksalt", a=4.08, cubic=True).repeat((2, 2, 1))
+    slab = lih.copy()
+    c = np.array(slab.get_cell())
+    c[2] *= 3
+    slab.set_cell(c)
+    slab.set_pbc([True, True, False])
+    pe = molecule("C6H6")
+    pe.set_cell(np.eye(3) * 12.0)
+    pe.center()
+    pe.set_pbc(True)
+    return [("LiH.rocksalt221", lih), ("LiH.layer.TTF", slab), ("C6H6.box", pe)]
+
+
 def shards(tier, seed):
-    out = [("table",)]
+    out = [("table",), ("light",)]
     n = len(_structs(tier))
     pairs = PAIRS[:3] if tier == "quick" else PAIRS
     nchunk = 12 if tier == "quick" else 48
@@ -153,6 +170,23 @@ def run_shard(shard, tier, seed):
     res = Result()
     if shard[0] == "table":
         check_table(res)
+        return res
+    if shard[0] == "light":
+        for label, at in light_structures():
+            for preset in PRESETS:
+                res.counters["evaluations"] += 1
+                res.counters["states"] += 1
+                res.counters["transitions"] += 4
+                case = {"kind": "diff", "atoms": families.atoms_case(at), "preset": preset, "sbc": True, "label": label}
+                try:
+                    viol, tag = diff_case(at, preset, True)
+                except Exception as e:
+                    viol, tag = [("exception", repr(e))], "exc"
+                res.outcomes["%s %s" % (preset, tag)] += 1
+                res.nontrivial.add("light:%s:%s" % (label, preset))
+                for k, d in viol[:1]:
+                    res.violation("c19." + k, {"case": short_hash(case)}, case, "%s: %s" % (label, d))
+        res.sample({"kind": "light", "structures": [l for l, _ in light_structures()]})
         return res
     _, pi, spacing, ch, nchunk = shard
     species = PAIRS[pi]
